@@ -36,11 +36,13 @@ func H_C06_same_value_in_both_parsers() {
 
 var vSep []byte
 
+var vLeafIsRef bool // the tree just written contains an indirect reference (content streams have none)
+
 func vEmitSep(out []byte) []byte { return append(out, vSep...) }
 
 // vLeaf renders one leaf object with symbolic content and spelling and returns the expected value.
 func vLeaf(out []byte) ([]byte, core.Object) {
-	switch vAnyIntIn(0, 6) {
+	switch vAnyIntIn(0, 7) {
 	case 0: // integer: optional sign, 1..3 symbolic digits
 		neg := vAnyIntIn(0, 1) == 1
 		if neg {
@@ -93,9 +95,17 @@ func vLeaf(out []byte) ([]byte, core.Object) {
 	case 2: // hex string: 1..2 symbolic bytes, digit case symbolic
 		out = append(out, '<')
 		var val []byte
+		odd := vAnyIntIn(0, 1) == 1 // an odd number of digits is legal: the missing last digit is 0
 		for i, nb := 0, vAnyIntIn(1, 2); i < nb; i++ {
 			c := vAnyByte()
-			for _, nib := range []byte{c >> 4, c & 15} {
+			last := odd && i == nb-1
+			if last {
+				vAssume(c&15 == 0)
+			}
+			for k, nib := range []byte{c >> 4, c & 15} {
+				if last && k == 1 {
+					break
+				}
 				d := vAnyByte()
 				vAssume(vHexVal(d) == nib)
 				out = append(out, d)
@@ -119,6 +129,13 @@ func vLeaf(out []byte) ([]byte, core.Object) {
 			val = append(val, c)
 		}
 		return out, core.Name(val)
+	case 7: // indirect reference "n g R" with the document's separator between its three tokens (document level only)
+		vLeafIsRef = true
+		n, g := vAnyByte(), vAnyByte()
+		vAssume(n >= '1' && n <= '9' && g >= '0' && g <= '9')
+		out = vEmitSep(append(out, n))
+		out = vEmitSep(append(out, g))
+		return append(out, 'R'), core.IndirectRef{Number: int(n - '0'), Generation: int(g - '0')}
 	case 4:
 		return append(out, "true"...), core.Bool(true)
 	case 5:
@@ -175,7 +192,7 @@ func vTree(out []byte, shape int) ([]byte, core.Object) {
 // H_C06_write_parse_roundtrip: an object tree written under any legal spelling parses back to the same tree in both parsers.
 //
 //symgo:harness prop=C06 kernel=K2-roundtrip
-//symgo:desc tree shapes {leaf, [leaf leaf], <</K leaf>>, [[leaf] leaf]} (quick: leaf and <</K leaf>>); leaves: integer (sign, 1..3 symbolic digits), literal string (0..2 symbolic bytes spelled raw / octal / named escape), hex string (1..2 bytes, symbolic digit case), name (1..2 symbolic bytes raw or #xx), true, false, null; token separator chosen once per document from {space, LF, CRLF, comment ended by LF, comment ended by CR, TAB+space, bare CR} (quick: first five; delimiters always separated); both core.ParseObject and contentstream.Parse (as the single operand of q) must return the tree
+//symgo:desc tree shapes {leaf, [leaf leaf], <</K leaf>>, [[leaf] leaf]} (quick: leaf and <</K leaf>>); leaves: integer (sign, 1..3 symbolic digits), literal string (0..2 symbolic bytes spelled raw / octal / named escape), hex string (1..2 bytes, symbolic digit case, even or odd number of digits), indirect reference n g R with the separator between its tokens (document-level parser only), name (1..2 symbolic bytes raw or #xx), true, false, null; token separator chosen once per document from {space, LF, CRLF, comment ended by LF, comment ended by CR, TAB+space, bare CR} (quick: first five; delimiters always separated); both core.ParseObject and contentstream.Parse (as the single operand of q) must return the tree
 func H_C06_write_parse_roundtrip() {
 	nshapes, nseps := 1, 4
 	if vTier() > 0 {
@@ -201,10 +218,15 @@ func H_C06_write_parse_roundtrip() {
 	if vTier() == 0 && shape == 1 {
 		shape = 2 // quick: leaf and <</K leaf>>; arrays of two leaves are thorough-only
 	}
+	vLeafIsRef = false
 	doc, want := vTree(nil, shape)
 	o1, err1 := core.NewParser(bytes.NewReader(append(append([]byte{}, doc...), ' '))).ParseObject()
 	vAssert("document-parser-accepts", err1 == nil)
 	vAssert("document-parser-same-tree", vEqObj(o1, want))
+	if vLeafIsRef {
+		vReach("end")
+		return
+	}
 	ops, err2 := NewParser(append(append([]byte{}, doc...), ' ', 'q')).Parse()
 	vAssert("content-parser-accepts", err2 == nil)
 	vAssert("content-parser-one-operation", len(ops) == 1 && ops[0].Operator == "q" && len(ops[0].Operands) == 1)
@@ -215,7 +237,7 @@ func H_C06_write_parse_roundtrip() {
 // H_C06_operator_grouping: operator/operand grouping of a content stream is preserved.
 //
 //symgo:harness prop=C06 kernel=K3-grouping
-//symgo:desc 1..2 quick / 1..3 thorough operators from {q, BT, Tj, TJ, ', ", T*, cm, Tf, Td} with their operands (symbolic one-digit integers, one-byte literal strings, a name) separated by a symbolic whitespace byte: Parse returns exactly these operators in order, each with exactly its operands
+//symgo:desc 1..2 quick / 1..3 thorough operators from {q, BT, Tj, TJ, ', ", T*, cm, Tf, Td, d0, d1} with their operands (symbolic one-digit integers, one-byte literal strings, a name) separated by a symbolic whitespace byte: Parse returns exactly these operators in order, each with exactly its operands
 func H_C06_operator_grouping() {
 	maxOps := 2
 	if vTier() > 0 {
@@ -242,7 +264,7 @@ func H_C06_operator_grouping() {
 	}
 	for i := 0; i < n; i++ {
 		var e exp
-		switch vAnyIntIn(0, 9) {
+		switch vAnyIntIn(0, 11) {
 		case 0:
 			e.op = "q"
 		case 1:
@@ -270,6 +292,14 @@ func H_C06_operator_grouping() {
 		case 8:
 			doc = append(doc, "/F1 "...)
 			e.op, e.args = "Tf", []core.Object{core.Name("F1"), num()}
+		case 10:
+			a, b := num(), num()
+			e.op, e.args = "d0", []core.Object{a, b}
+		case 11:
+			e.op = "d1"
+			for k := 0; k < 6; k++ {
+				e.args = append(e.args, num())
+			}
 		default:
 			a, b := num(), num()
 			e.op, e.args = "Td", []core.Object{a, b}
